@@ -44,6 +44,9 @@ type layerAbs struct {
 	Narrow bool   `json:"narrow"`
 	Verbs  bool   `json:"verbs"`
 	Final  bool   `json:"final"`
+	// realisation of Sig = "bad": FALSE = a bit of the signature value flipped, TRUE = forged: the issuer
+	// field names the legitimate party but the token is signed with a stranger's key
+	Forge bool `json:"-"`
 }
 
 type ctxAbs struct {
@@ -612,6 +615,7 @@ type v2Case struct {
 	n3ok          bool
 	chain         []layerAbs // desired abstract chain, outermost origin first
 	subjViaNNS    bool
+	forgeTop      bool // the token itself names the legitimate issuer but is signed with a stranger's key
 }
 
 type v2Built struct {
@@ -723,7 +727,11 @@ func (g *c30Gen) buildV2(c v2Case) v2Built {
 		if k+1 < len(layers) {
 			layers[k].tok.SetOrigin(layers[k+1].tok)
 		}
-		must(layers[k].tok.Sign(layers[k].owner.signer(g.r.Intn(3))))
+		if c.chain[k].Sig == "bad" && c.chain[k].Forge {
+			must(layers[k].tok.Sign(user.NewSigner(newIdent().signer(g.r.Intn(3)), layers[k].owner.id)))
+		} else {
+			must(layers[k].tok.Sign(layers[k].owner.signer(g.r.Intn(3))))
+		}
 	}
 	if len(layers) > 0 {
 		st.SetOrigin(layers[0].tok)
@@ -732,6 +740,8 @@ func (g *c30Gen) buildV2(c v2Case) v2Built {
 		acc, invoc, verif := g.n3Witness(c.n3ok)
 		st.SetIssuer(acc)
 		st.AttachSignature(neofscrypto.NewN3Signature(invoc, verif))
+	} else if c.forgeTop {
+		must(st.Sign(user.NewSigner(newIdent().signer(schemeIdx(c.scheme)), b.issuer.id)))
 	} else {
 		must(st.Sign(b.issuer.signer(schemeIdx(c.scheme))))
 	}
@@ -739,7 +749,7 @@ func (g *c30Gen) buildV2(c v2Case) v2Built {
 	// damaged origin signatures
 	o := b.m.Origin
 	for _, la := range c.chain {
-		if la.Sig == "bad" {
+		if la.Sig == "bad" && !la.Forge {
 			o.Signature.Sign[g.r.Intn(len(o.Signature.Sign))] ^= 1 << g.r.Intn(8)
 		}
 		o = o.Origin
@@ -1018,6 +1028,28 @@ func (g *c30Gen) genV2() {
 			c.chain = ch
 			c.subjViaNNS = r.Intn(3) == 0
 			g.emitV2(c, g.buildV2(c), true, "ok", c.scheme, fmt.Sprintf("delegation chain of %d origin(s), nns=%v", len(ch), c.subjViaNNS))
+		}
+		// forgeries: the issuer field names the legitimate party (for a delegated token: a subject of its
+		// origin), the signature is made with another key - on the token itself and at every level of the chain
+		for n := 0; n <= 3; n++ {
+			for _, sch := range schemeNames {
+				c := goodV2(r)
+				c.scheme = sch
+				for range n {
+					c.chain = append(c.chain, good)
+				}
+				c.forgeTop = true
+				g.emitV2(c, g.buildV2(c), true, "bad", sch, fmt.Sprintf("forged: token under %d origin(s) names the legitimate issuer, signed with a stranger's key", n))
+			}
+			for lvl := range n {
+				c := goodV2(r)
+				for range n {
+					c.chain = append(c.chain, good)
+				}
+				c.chain = append([]layerAbs{}, c.chain...)
+				c.chain[lvl].Sig, c.chain[lvl].Forge = "bad", true
+				g.emitV2(c, g.buildV2(c), true, "ok", c.scheme, fmt.Sprintf("forged: origin %d of %d names the legitimate issuer, signed with a stranger's key", lvl+1, n))
+			}
 		}
 		// top-level signature broken under a good chain
 		c := goodV2(r)
